@@ -159,6 +159,28 @@ def run(chk, w):
     from . import c01
     chk.rule("C10-CB", "the write callback is invoked only with the send-buffer mutex held (never by two threads at once)")
     c01.callback_rule(chk, w, c01.send_roles(w), db, "C10-CB")
+    # read-modify-write of tracked state split over two critical sections
+    from .. import atomic
+    chk.rule("C10-ATOM", "a value read from a shared field in one critical section and written back (modified) in a later one is covered by a lock held exclusively across both (no lost update)")
+    found, st = atomic.split_rmw(db)
+    chk.extra["atom_stats"] = st
+    chk.floor("rmw_candidates_with_value_flow", st["with_value_flow"], 1)
+    seen_k = set()
+    for (key, i1, i2, r, wr, lock) in found:
+        f = db.E.ctxs[key].fn
+        kk = (f.name, wr.field)
+        if kk in seen_k:
+            continue
+        seen_k.add(kk)
+        chk.violation("C10-ATOM", f.name, "%s:%s" % (wr.region[1] or wr.region[0], wr.field), i2.loc(),
+                      "%s reads %s below the call at line %d (%s) and writes it back below the call at line %d (%s); %s is released in between and no lock is held exclusively across both calls "
+                      "(locksets %s / %s): two threads can both read the old value and one update is lost" % (
+                          f.name, wr.field, i1.line, i1.callee, i2.line, i2.callee, lock,
+                          locks.ls_str(next(ls for (ci, ck, ls) in db.E.ctxs[key].calls if ci.id == i1.id)), locks.ls_str(next(ls for (ci, ck, ls) in db.E.ctxs[key].calls if ci.id == i2.id))),
+                      read_at=r.loc(), write_at=wr.loc(), chain=db.E.chain(db.E.ctxs[key]))
+    for _ in range(st["spanned_by_exclusive_lock"]):
+        chk.ok("C10-ATOM", 1)
+
     # canaries: fixture functions analysed as extra API roots in a separate engine
     canary(chk, w)
 
